@@ -3,6 +3,8 @@ package checks
 import (
 	"context"
 	"fmt"
+	"github.com/sdcio/data-server/pkg/config"
+	"github.com/sdcio/data-server/pkg/datastore/target"
 	"sort"
 	"strings"
 	"testing/synctest"
@@ -19,13 +21,26 @@ import (
 
 func runC15(rc *sim.RunCtx) {
 	t := rc.T
-	h, err := NewHist(rc, HistOpts{Profiles: []string{"core", "presence"}, MinTx: 2, MaxTx: 6, Oracles: map[string]bool{}})
+	h, err := NewHist(rc, HistOpts{Profiles: []string{"core", "presence"}, MinTx: 2, MaxTx: 6, Oracles: map[string]bool{},
+		Sync: &config.Sync{Validate: true, Buffer: 16, WriteWorkers: 1, Config: []*config.SyncProtocol{{Name: "cfg", Protocol: "gnmi", Mode: "on-change"}}}})
 	if err != nil {
 		rc.HarnessErr("world: %v", err)
 		return
 	}
 	w := h.W
 	defer w.Close()
+	// the real Datastore.Sync: values the device reports in its native forms reach the running store through it
+	var syncCh chan *target.SyncUpdate
+	ready := make(chan struct{})
+	w.Dev.SyncFn = func(ctx context.Context, cfg *config.Sync, c chan *target.SyncUpdate) {
+		syncCh = c
+		close(ready)
+		<-ctx.Done()
+	}
+	sctx, scancel := context.WithCancel(w.Ctx)
+	defer scancel()
+	go w.DS.Sync(sctx)
+	<-ready
 	n := tierLen(rc, h.Ops)
 	for s := 0; s < n; s++ {
 		h.AdvanceClock()
@@ -63,6 +78,40 @@ func runC15(rc *sim.RunCtx) {
 			w.WriteStore(cachepb.Store_CONFIG, u)
 			rc.Scenario("drift: %s = %s (new)", l.Path, l.Lex)
 			rc.Probe("drift-add")
+		}
+	}
+	// ---- typed values: an intent over one leaf per YANG type, and the device reporting the same or another datum back in one of
+	// its native forms (gNMI typed / JSON / JSON_IETF, NETCONF XML) through the real converters and Datastore.Sync: the same datum
+	// in another representation is not a deviation, another datum is
+	if t.Bool(1, 2) {
+		ntyped := 1 + t.Choose(3)
+		for i := 0; i < ntyped; i++ {
+			v := c12values[t.Choose(len(c12values))]
+			lex := v.lex[t.Choose(len(v.lex))]
+			p := world.P(world.E("types"), world.E(v.leaf))
+			l := NewMLeaf(w.SI, p, lex)
+			tx := &TxSpec{ID: fmt.Sprintf("ty%d", i), Intents: []IntentSpec{{Name: fmt.Sprintf("ot%d", i), Prio: int32(70 + i), Leaves: []*MLeaf{l}, Form: "typed", Edit: "create"}}}
+			res := ExecTx(rc, w, tx, 5*time.Second)
+			w.NoteTimer(30 * time.Second)
+			if !res.Accepted() {
+				continue
+			}
+			Confirm(rc, w, tx.ID)
+			rep := l
+			if t.Bool(1, 3) {
+				rep = NewMLeaf(w.SI, p, v.lex[t.Choose(len(v.lex))]) // the device holds (possibly) another datum
+			}
+			form := echoForms[t.Choose(len(echoForms))]
+			ns, err := echoNotifications(w, rep, form)
+			if err != nil {
+				continue
+			}
+			for _, n := range ns {
+				syncCh <- &target.SyncUpdate{Update: n}
+			}
+			synctest.Wait()
+			rc.Scenario("typed: %s = %q by ot%d, device reports %q as %s", p, lex, i, rep.Lex, form)
+			rc.Probe("typed-echo")
 		}
 	}
 	cfgDump, err1 := w.DumpConfig()
